@@ -59,8 +59,29 @@ pub enum Got {
 fn syms(v: &Value) -> String {
     v.as_array().map(|a| a.iter().map(|s| s.as_str().unwrap_or("")).collect()).unwrap_or_default()
 }
+/// One symbol per character. TLC's JSON reader maps every non-ASCII character to `??`, so those are logged under
+/// an ASCII name (`u00e9`): symbols are opaque to Match, only their identity matters.
 fn unsyms(s: &str) -> Value {
-    Value::Array(s.chars().map(|c| Value::String(c.to_string())).collect())
+    Value::Array(s.chars().map(|c| Value::String(if c.is_ascii() { c.to_string() } else { format!("u{:04x}", c as u32) })).collect())
+}
+
+/// Spellings of a header name (names are case-insensitive, values are not).
+fn spell_name(name: &str, spell: usize) -> String {
+    match spell % 4 {
+        0 => name.to_string(),
+        1 => name.to_ascii_lowercase(),
+        2 => name.to_ascii_uppercase(),
+        _ => name.chars().enumerate().map(|(i, c)| if i % 2 == 0 { c.to_ascii_lowercase() } else { c.to_ascii_uppercase() }).collect(),
+    }
+}
+
+/// requests that ended in a time-out even after a retry: the run is cut short after a few of them
+pub static HANGS: std::sync::atomic::AtomicUsize = std::sync::atomic::AtomicUsize::new(0);
+/// WebSocket upgrades that were sent on a connection which had carried ordinary requests before
+pub static WS_ON_KEPT: std::sync::atomic::AtomicUsize = std::sync::atomic::AtomicUsize::new(0);
+const MAX_HANGS: usize = 4;
+fn too_many_hangs() -> bool {
+    HANGS.load(std::sync::atomic::Ordering::SeqCst) >= MAX_HANGS
 }
 
 pub fn ident(tag: &str, sub: usize, idx: usize, kind: &str) -> String {
@@ -164,7 +185,7 @@ const OTHER_HOSTS: [&str; 3] = ["c.y", "a.x", "zz.x:8"];
 /// 0 GET keep-alive; 1 POST with a body, more headers, lower-case header name, keep-alive;
 /// 2 GET HTTP/1.0, Connection: close on a fresh connection, no space after `Host:`;
 /// 3 OPTIONS on a fresh connection (only hit/miss is observable: 204 / 404).
-fn http_once(port: u16, keep: &mut Option<Conn>, rq: &Rq, variant: usize, tag: &str) -> Got {
+fn http_once(port: u16, keep: &mut Option<Conn>, rq: &Rq, variant: usize, spell: usize, tag: &str) -> Got {
     let mut req = String::new();
     let (method, version) = match variant {
         1 => ("POST", "HTTP/1.1"),
@@ -179,10 +200,12 @@ fn http_once(port: u16, keep: &mut Option<Conn>, rq: &Rq, variant: usize, tag: &
         req.push_str("Referer: http://c.y/a/b?x/b\r\n");
     }
     if rq.hostp {
-        match variant {
-            1 => req.push_str(&format!("host: {}\r\n", rq.host)),
-            2 => req.push_str(&format!("Host:{}\r\n", rq.host)),
-            _ => req.push_str(&format!("Host: {}\r\n", rq.host)),
+        // the header NAME in every case; variant 2 leaves out the blank after the colon
+        let name = spell_name("Host", spell);
+        if variant == 2 {
+            req.push_str(&format!("{}:{}\r\n", name, rq.host));
+        } else {
+            req.push_str(&format!("{}: {}\r\n", name, rq.host));
         }
     }
     if variant == 1 {
@@ -190,12 +213,12 @@ fn http_once(port: u16, keep: &mut Option<Conn>, rq: &Rq, variant: usize, tag: &
     }
     let fresh = variant >= 2;
     if fresh {
-        req.push_str("Connection: close\r\n");
+        req.push_str(&format!("{}: close\r\n", spell_name("Connection", spell + 1)));
     } else {
-        req.push_str("Connection: keep-alive\r\n");
+        req.push_str(&format!("{}: keep-alive\r\n", spell_name("Connection", spell + 1)));
     }
     if variant == 1 {
-        req.push_str("Content-Length: 3\r\n\r\nabc");
+        req.push_str(&format!("{}: 3\r\n\r\nabc", spell_name("Content-Length", spell + 2)));
     } else {
         req.push_str("\r\n");
     }
@@ -237,28 +260,36 @@ fn http_once(port: u16, keep: &mut Option<Conn>, rq: &Rq, variant: usize, tag: &
     Got::Other("unreachable".into())
 }
 
-/// WebSocket upgrade request; variant 1 adds headers and writes the header name in lower case.
-fn ws_once(port: u16, rq: &Rq, variant: usize, tag: &str) -> Got {
+/// WebSocket upgrade request; variant 1 adds headers; variant 2 sends the upgrade on the connection that already
+/// carried ordinary keep-alive requests (when there is one). Header names are spelled per `spell`.
+fn ws_once(port: u16, keep: &mut Option<Conn>, rq: &Rq, variant: usize, spell: usize, tag: &str) -> Got {
     let mut req = format!("GET {} HTTP/1.1\r\n", rq.target);
     if variant == 1 {
         req.push_str(&format!("Origin: http://{}\r\nX-Forwarded-Host: {}\r\n", OTHER_HOSTS[rq.target.len() % 3], OTHER_HOSTS[(rq.target.len() + 1) % 3]));
     }
     if rq.hostp {
-        if variant == 1 {
-            req.push_str(&format!("host: {}\r\n", rq.host));
-        } else {
-            req.push_str(&format!("Host: {}\r\n", rq.host));
-        }
+        req.push_str(&format!("{}: {}\r\n", spell_name("Host", spell), rq.host));
     }
-    req.push_str("Upgrade: websocket\r\nConnection: Upgrade\r\nSec-WebSocket-Key: dGhlIHNhbXBsZSBub25jZQ==\r\nSec-WebSocket-Version: 13\r\n\r\n");
-    let mut c = match connect(port) {
-        Ok(c) => c,
-        Err(e) => return Got::Other(e),
+    req.push_str(&format!(
+        "{}: websocket\r\n{}: Upgrade\r\nSec-WebSocket-Key: dGhlIHNhbXBsZSBub25jZQ==\r\nSec-WebSocket-Version: 13\r\n\r\n",
+        spell_name("Upgrade", spell + 1),
+        spell_name("Connection", spell + 2)
+    ));
+    let mut c = match if variant == 2 { keep.take() } else { None } {
+        Some(c) => {
+            WS_ON_KEPT.fetch_add(1, std::sync::atomic::Ordering::Relaxed);
+            c
+        }
+        None => match connect(port) {
+            Ok(c) => c,
+            Err(e) => return Got::Other(e),
+        },
     };
     if let Err(e) = c.s.write_all(req.as_bytes()) {
         return Got::Other(format!("write: {}", e));
     }
-    let mut out = Vec::new();
+    // bytes already read on a kept connection belong to the stream too
+    let mut out: Vec<u8> = std::mem::take(&mut c.buf);
     let mut tmp = [0u8; 1024];
     let mut reset = false;
     loop {
@@ -279,6 +310,11 @@ fn ws_once(port: u16, rq: &Rq, variant: usize, tag: &str) -> Got {
             }
         }
     }
+    // humphrey ends a response that has a body with an extra CRLF (open C01/C07 finding CrlfAfterBody): on a
+    // connection that carried responses before, blank lines may precede whatever the upgrade produced
+    while out.starts_with(b"\r\n") {
+        out.drain(0..2);
+    }
     if out.is_empty() {
         return Got::Miss(if reset { "reset".into() } else { "eof".into() });
     }
@@ -298,22 +334,40 @@ fn ws_once(port: u16, rq: &Rq, variant: usize, tag: &str) -> Got {
 
 /// One request with retries for transport trouble only (time-outs, resets under machine load): a wrong handler,
 /// a wrong status or unexpected bytes are never retried.
-fn ask(port: u16, keep: &mut Option<Conn>, rq: &Rq, variant: usize, tag: &str, flaky: &mut u64) -> Got {
+fn ask(port: u16, keep: &mut Option<Conn>, rq: &Rq, variant: usize, spell: usize, tag: &str, flaky: &mut u64) -> Got {
     let mut got = Got::Other("unreachable".into());
     for attempt in 0..3 {
-        got = if rq.ws { ws_once(port, rq, variant % 2, tag) } else { http_once(port, keep, rq, variant, tag) };
+        got = if rq.ws { ws_once(port, keep, rq, variant % 3, spell, tag) } else { http_once(port, keep, rq, variant, spell, tag) };
         match &got {
             Got::Other(e) if e.starts_with("read") || e.starts_with("write") || e.starts_with("eof") || e.starts_with("ws read") || e.starts_with("connect") => {
-                if attempt < 2 {
+                let timed_out = e.contains("timed out") || e.contains("temporarily unavailable") || e.contains("WouldBlock");
+                if attempt < 2 && !(timed_out && attempt == 1) {
                     *flaky += 1;
                     *keep = None;
                     thread::sleep(Duration::from_millis(200));
+                } else {
+                    if timed_out {
+                        HANGS.fetch_add(1, std::sync::atomic::Ordering::SeqCst);
+                    }
+                    break;
                 }
             }
             _ => break,
         }
     }
     got
+}
+
+/// An empty request target (`GET  HTTP/1.1`) or one that starts with `?` is not a valid request line; the parser
+/// accepts it today (path = ""), and then the routing rule applies - but a parser that refuses it with 400 would
+/// not contradict the property. Both outcomes are accepted for exactly these targets.
+fn refused_degenerate(rq: &Rq, got: &Got) -> bool {
+    (rq.target.is_empty() || rq.target.starts_with('?'))
+        && match got {
+            Got::Other(e) => e == "status 400" || e == "OPTIONS answered 400",
+            Got::Miss(how) => how == "http 400",
+            _ => false,
+        }
 }
 
 fn got_json(g: &Got) -> Value {
@@ -339,7 +393,7 @@ struct Job {
     exp: Vec<(usize, usize)>,
 }
 
-fn ops_from_app(app: &Value, order: usize) -> Vec<Op> {
+fn ops_from_app(app: &Value, order: usize, full_api: bool) -> Vec<Op> {
     let mut hosts: Vec<Op> = vec![];
     for s in app["hosts"].as_array().cloned().unwrap_or_default() {
         let http: Vec<SubOp> = s["http"].as_array().unwrap().iter().map(|p| SubOp::Route(syms(p))).collect();
@@ -362,10 +416,27 @@ fn ops_from_app(app: &Value, order: usize) -> Vec<Op> {
         }
         hosts.push(Op::Host(syms(&s["host"]), so));
     }
-    let mut def: Vec<Op> = app["def"]["http"].as_array().unwrap().iter().map(|p| Op::Route(syms(p))).collect();
-    def.extend(app["def"]["ws"].as_array().unwrap().iter().map(|p| Op::Ws(syms(p))));
+    let dh: Vec<String> = app["def"]["http"].as_array().unwrap().iter().map(syms).collect();
+    let dw: Vec<String> = app["def"]["ws"].as_array().unwrap().iter().map(syms).collect();
+    let mut def: Vec<Op> = vec![];
+    if full_api && order % 4 == 3 {
+        // App::with_default_subapp: catch-alls registered on the app BEFORE it must vanish; the first half of each
+        // default list comes with the new sub-app (WebSocket routes included), the rest is appended afterwards
+        def.push(Op::Route("*".into()));
+        def.push(Op::Ws("*".into()));
+        let (kh, kw) = ((dh.len() + 1) / 2, (dw.len() + 1) / 2);
+        let mut so: Vec<SubOp> = dw[..kw].iter().map(|p| SubOp::Ws(p.clone())).collect();
+        so.extend(dh[..kh].iter().map(|p| SubOp::Route(p.clone())));
+        def.push(Op::DefSub(so));
+        def.extend(dh[kh..].iter().map(|p| Op::Route(p.clone())));
+        def.extend(dw[kw..].iter().map(|p| if p == "*" { Op::WsAll } else { Op::Ws(p.clone()) }));
+    } else {
+        def.extend(dh.iter().map(|p| Op::Route(p.clone())));
+        // the deprecated App::with_websocket_handler is with_websocket_route("*", ..)
+        def.extend(dw.iter().map(|p| if full_api && order % 2 == 1 && p == "*" { Op::WsAll } else { Op::Ws(p.clone()) }));
+    }
     let mut ops = vec![];
-    match order % 3 {
+    match if full_api && order % 4 == 3 { 1 } else { order % 3 } {
         0 => {
             ops.extend(hosts);
             ops.extend(def);
@@ -398,11 +469,14 @@ struct Tally {
     tool_errors: u64,
     unstopped: u64,
     flaky: u64,
+    refused_degenerate: u64,
+    start_failures: u64,
     first: Vec<Value>,
     samples: Vec<Value>,
 }
 
-fn replay<S: Server>(all_variants: bool, workers: usize) {
+fn replay<S: Server>(variants_mode: &str, workers: usize) {
+    let variants_mode = variants_mode.to_string();
     let mut reqs: Vec<Rq> = vec![];
     let mut jobs: VecDeque<Job> = VecDeque::new();
     for line in stdin_lines() {
@@ -418,7 +492,7 @@ fn replay<S: Server>(all_variants: bool, workers: usize) {
         } else if v.get("app").is_some() {
             let idx = jobs.len();
             let exp: Vec<(usize, usize)> = v["exp"].as_array().unwrap().iter().map(|e| (e[0].as_u64().unwrap() as usize, e[1].as_u64().unwrap() as usize)).collect();
-            let ops = ops_from_app(&v["app"], idx);
+            let ops = ops_from_app(&v["app"], idx, S::FULL_API);
             jobs.push_back(Job { idx, app: v["app"].clone(), ops, exp });
         }
     }
@@ -428,16 +502,23 @@ fn replay<S: Server>(all_variants: bool, workers: usize) {
     let mut hs = vec![];
     for _w in 0..workers {
         let (reqs, jobs, tally) = (reqs.clone(), jobs.clone(), tally.clone());
+        let variants_mode = variants_mode.clone();
         hs.push(thread::spawn(move || loop {
+            if too_many_hangs() {
+                break;
+            }
             let job = match jobs.lock().unwrap().pop_front() {
                 Some(j) => j,
                 None => break,
             };
             let tag = format!("A{}", job.idx);
+            let all_variants = variants_mode == "all" || (variants_mode == "mixed" && job.idx % 3 == 0);
             let run = match S::start(&job.ops, &tag) {
                 Ok(r) => r,
                 Err(_) => {
-                    tally.lock().unwrap().tool_errors += 1;
+                    let mut t = tally.lock().unwrap();
+                    t.tool_errors += 1;
+                    t.start_failures += 1;
                     continue;
                 }
             };
@@ -450,8 +531,11 @@ fn replay<S: Server>(all_variants: bool, workers: usize) {
                 }
                 local.requests += 1;
                 let exp = job.exp[ri];
+                if too_many_hangs() {
+                    break;
+                }
                 let variants: Vec<usize> = if rq.ws {
-                    if all_variants { vec![0, 1] } else { vec![(job.idx + ri / 2) % 2] }
+                    if all_variants { vec![0, 1, 2] } else { vec![(job.idx + ri / 2) % 3] }
                 } else if all_variants {
                     vec![0, 1, 2, 3]
                 } else if (job.idx + ri) % 7 == 0 {
@@ -460,8 +544,12 @@ fn replay<S: Server>(all_variants: bool, workers: usize) {
                     vec![(job.idx + ri / 2) % 3]
                 };
                 for v in variants {
-                    let got = ask(run.port(), &mut keep, rq, v, &tag, &mut local.flaky);
+                    let got = ask(run.port(), &mut keep, rq, v, job.idx + ri + v, &tag, &mut local.flaky);
                     local.evaluations += 1;
+                    if refused_degenerate(rq, &got) {
+                        local.refused_degenerate += 1;
+                        continue;
+                    }
                     let ok = match (&got, exp) {
                         (Got::Miss(_), (0, 0)) => true,
                         (Got::Hit(s, _), (_, j)) if *s == usize::MAX => j != 0,
@@ -497,6 +585,7 @@ fn replay<S: Server>(all_variants: bool, workers: usize) {
             t.tool_errors += local.tool_errors;
             t.unstopped += local.unstopped;
             t.flaky += local.flaky;
+            t.refused_degenerate += local.refused_degenerate;
             for f in local.first {
                 if t.first.len() < 40 {
                     t.first.push(f);
@@ -514,20 +603,24 @@ fn replay<S: Server>(all_variants: bool, workers: usize) {
     }
     let t = tally.lock().unwrap();
     out_line(&json!({"summary": true, "apps": t.apps, "requests": t.requests, "evaluations": t.evaluations, "mismatches": t.mismatches,
-        "tool_errors": t.tool_errors, "unstopped": t.unstopped, "transport_retries": t.flaky, "first": t.first, "samples": t.samples}));
+        "tool_errors": t.tool_errors, "start_failures": t.start_failures, "unstopped": t.unstopped, "transport_retries": t.flaky,
+        "refused_degenerate": t.refused_degenerate, "ws_upgrades_on_kept_connection": WS_ON_KEPT.load(std::sync::atomic::Ordering::Relaxed), "hangs": HANGS.load(std::sync::atomic::Ordering::SeqCst), "aborted_after_hangs": too_many_hangs(),
+        "first": t.first, "samples": t.samples}));
 }
 
 // ------------------------------------------------------------------------------------------------
 // random apps, logged for Trace_Routing.tla
 // ------------------------------------------------------------------------------------------------
 fn rand_path(rng: &mut Rng) -> String {
-    let segs = ["a", "b", "c", "ab", "aab", "a.b", "*"];
+    // upper case and characters whose case mappings change them (or their length) are literal symbols too:
+    // \u{e9} e-acute, \u{130} capital I with dot (lower case is two characters), \u{212a} Kelvin sign (lower case `k`)
+    let segs = ["a", "b", "c", "ab", "aab", "a.b", "A", "Ab", "\u{e9}", "a\u{130}b", "\u{212a}", "*"];
     let depth = rng.range(0, 3);
     let mut s = String::new();
     for _ in 0..depth {
         s.push('/');
         // a literal `*` segment is rare
-        let k = if rng.chance(1, 12) { 6 } else { rng.below(6) };
+        let k = if rng.chance(1, 12) { 11 } else if rng.chance(1, 5) { rng.range(6, 10) } else { rng.below(6) };
         s.push_str(segs[k]);
     }
     if depth == 0 || rng.chance(1, 6) {
@@ -571,9 +664,12 @@ fn pattern_from(rng: &mut Rng, text: &str) -> String {
     p
 }
 
-const HOST_POOL: [&str; 9] = ["a.x", "b.x", "a.b.x", "c.y", "a.x:8", "b.x:8", "localhost", "x", "127.0.0.1:8"];
+const HOST_POOL: [&str; 13] =
+    ["a.x", "b.x", "a.b.x", "c.y", "a.x:8", "b.x:8", "localhost", "x", "127.0.0.1:8", "A.X", "a.x:80", "\u{df}.x", "\u{212a}.x"];
 
-fn rand_app(rng: &mut Rng, full_api: bool) -> (Vec<Op>, Vec<String>, Vec<&'static str>) {
+/// `big`: far beyond the property's width - 8..16 host sub-apps, 20..45 routes per list, most of them copies of a
+/// few patterns (an implementation that sorts, dedups or indexes its routes shows there).
+fn rand_app(rng: &mut Rng, full_api: bool, big: bool) -> (Vec<Op>, Vec<String>, Vec<&'static str>) {
     let pool: Vec<String> = (0..rng.range(3, 6)).map(|_| rand_path(rng)).collect();
     // the Host values this app is mostly asked for; its host patterns are derived from them
     let hpool: Vec<&'static str> = (0..rng.range(2, 4)).map(|_| *rng.pick(&HOST_POOL)).collect();
@@ -581,6 +677,7 @@ fn rand_app(rng: &mut Rng, full_api: bool) -> (Vec<Op>, Vec<String>, Vec<&'stati
         match rng.below(30) {
             0 => "*".to_string(),
             1 => "/*".to_string(),
+            2 => String::new(), // the empty pattern matches the empty path only
             _ => {
                 let base = rng.pick(&pool).clone();
                 pattern_from(rng, &base)
@@ -588,15 +685,30 @@ fn rand_app(rng: &mut Rng, full_api: bool) -> (Vec<Op>, Vec<String>, Vec<&'stati
         }
     };
     let sub_ops = |rng: &mut Rng| -> Vec<SubOp> {
-        let nh = rng.range(0, 6);
-        let nw = rng.range(0, 6);
+        let nh = if big { rng.range(20, 45) } else { rng.range(0, 6) };
+        let nw = if big { rng.range(0, 34) } else { rng.range(0, 6) };
         let mut h: VecDeque<SubOp> = (0..nh).map(|_| SubOp::Route(route(rng))).collect();
         let mut w: VecDeque<SubOp> = (0..nw).map(|_| SubOp::Ws(route(rng))).collect();
+        if big {
+            // many copies: every element but a few is overwritten by one of the first three
+            for i in 3..h.len() {
+                if rng.chance(3, 4) {
+                    h[i] = h[rng.below(3)].clone();
+                }
+            }
+            for i in 3..w.len() {
+                if rng.chance(3, 4) {
+                    w[i] = w[rng.below(3)].clone();
+                }
+            }
+        }
         // duplicates: the first registration must keep winning
         if h.len() >= 2 && rng.chance(1, 4) {
             let d = h[0].clone();
             h.push_back(d);
-            h.truncate(6);
+            if !big {
+                h.truncate(6);
+            }
         }
         let mut out = vec![];
         while !h.is_empty() || !w.is_empty() {
@@ -608,18 +720,23 @@ fn rand_app(rng: &mut Rng, full_api: bool) -> (Vec<Op>, Vec<String>, Vec<&'stati
         }
         out
     };
-    let nhosts = rng.range(0, 4);
+    let nhosts = if big { rng.range(8, 16) } else { rng.range(0, 4) };
     let mut hosts: VecDeque<Op> = VecDeque::new();
     for _ in 0..nhosts {
         let mut hp;
         loop {
             let base = if rng.chance(5, 6) { *rng.pick(&hpool) } else { *rng.pick(&HOST_POOL) };
-            hp = pattern_from(rng, base);
-            if hp != "*" && !hp.is_empty() {
-                break;
+            hp = match rng.below(25) {
+                0 => String::new(), // matches the empty Host value only
+                1 => "**".to_string(),
+                _ => pattern_from(rng, base),
+            };
+            if hp != "*" {
+                break; // with_host refuses exactly "*"
             }
         }
-        hosts.push_back(Op::Host(hp, sub_ops(rng)));
+        let so = if big && rng.chance(1, 2) { vec![] } else { sub_ops(rng) };
+        hosts.push_back(Op::Host(hp, so));
     }
     if hosts.len() >= 2 && rng.chance(1, 5) {
         // the same host pattern twice
@@ -658,6 +775,9 @@ fn rand_app(rng: &mut Rng, full_api: bool) -> (Vec<Op>, Vec<String>, Vec<&'stati
 
 fn rand_req(rng: &mut Rng, pool: &[String], hpool: &[&'static str]) -> Rq {
     let mut target = if rng.chance(4, 5) { rng.pick(pool).clone() } else { rand_path(rng) };
+    if rng.chance(1, 40) {
+        target = String::new(); // the empty path (see refused_degenerate)
+    }
     if rng.chance(1, 6) {
         // near miss: one more / one less character
         if rng.chance(1, 2) {
@@ -676,13 +796,21 @@ fn rand_req(rng: &mut Rng, pool: &[String], hpool: &[&'static str]) -> Rq {
         target.push_str(&q);
     }
     let hostp = !rng.chance(1, 7);
-    let host = if !hostp {
+    let mut host = if !hostp {
         String::new()
     } else if rng.chance(3, 4) {
         rng.pick(hpool).to_string()
     } else {
         rng.pick(&HOST_POOL).to_string()
     };
+    if hostp {
+        match rng.below(16) {
+            0 => host = String::new(),              // `Host:` with an empty value
+            1 => host = host.to_ascii_uppercase(),   // another value, whatever the patterns say in lower case
+            2 => host = host.to_ascii_lowercase(),
+            _ => {}
+        }
+    }
     Rq { ws: rng.chance(2, 5), hostp, host, target }
 }
 
@@ -708,16 +836,21 @@ fn random<S: Server>(napps: usize, nreq: usize, workers: usize) {
     let mut rng = Rng::from_env();
     let mut jobs: VecDeque<(usize, Vec<Op>, Vec<Rq>)> = VecDeque::new();
     for i in 0..napps {
-        let (ops, pool, hpool) = rand_app(&mut rng, S::FULL_API);
-        let reqs: Vec<Rq> = (0..nreq).map(|_| rand_req(&mut rng, &pool, &hpool)).collect();
+        let big = i % 12 == 5;
+        let (ops, pool, hpool) = rand_app(&mut rng, S::FULL_API, big);
+        let reqs: Vec<Rq> = (0..if big { nreq / 2 } else { nreq }).map(|_| rand_req(&mut rng, &pool, &hpool)).collect();
         jobs.push_back((i, ops, reqs));
     }
     let jobs = Arc::new(Mutex::new(jobs));
     let errors = Arc::new(Mutex::new(0u64));
+    let start_failures = Arc::new(Mutex::new(0u64));
     let mut hs = vec![];
     for _ in 0..workers {
-        let (jobs, errors) = (jobs.clone(), errors.clone());
+        let (jobs, errors, start_failures) = (jobs.clone(), errors.clone(), start_failures.clone());
         hs.push(thread::spawn(move || loop {
+            if too_many_hangs() {
+                break;
+            }
             let (idx, ops, reqs) = match jobs.lock().unwrap().pop_front() {
                 Some(j) => j,
                 None => break,
@@ -727,6 +860,7 @@ fn random<S: Server>(napps: usize, nreq: usize, workers: usize) {
                 Ok(r) => r,
                 Err(_) => {
                     *errors.lock().unwrap() += 1;
+                    *start_failures.lock().unwrap() += 1;
                     continue;
                 }
             };
@@ -736,12 +870,18 @@ fn random<S: Server>(napps: usize, nreq: usize, workers: usize) {
             for (ri, rq) in reqs.iter().enumerate() {
                 let v = (idx + ri) % 3;
                 let mut flaky = 0u64;
-                let got = ask(run.port(), &mut keep, rq, v, &tag, &mut flaky);
+                if too_many_hangs() {
+                    break;
+                }
+                let got = ask(run.port(), &mut keep, rq, v, idx + 3 * ri, &tag, &mut flaky);
                 if let Got::Other(e) = &got {
                     if e.starts_with("FOREIGN") || e.starts_with("connect") {
                         *errors.lock().unwrap() += 1;
                         continue;
                     }
+                }
+                if refused_degenerate(rq, &got) {
+                    continue;
                 }
                 let g = got_json(&got);
                 lines.push(json!({"t": "req", "ops": [], "kind": if rq.ws { "ws" } else { "http" }, "hostp": rq.hostp, "host": unsyms(&rq.host),
@@ -762,7 +902,11 @@ fn random<S: Server>(napps: usize, nreq: usize, workers: usize) {
     for h in hs {
         let _ = h.join();
     }
-    eprintln!("{}", json!({"summary": true, "apps": napps, "tool_errors": *errors.lock().unwrap() % 1000000, "unstopped": *errors.lock().unwrap() / 1000000}));
+    eprintln!(
+        "{}",
+        json!({"summary": true, "apps": napps, "tool_errors": *errors.lock().unwrap() % 1000000, "unstopped": *errors.lock().unwrap() / 1000000,
+            "start_failures": *start_failures.lock().unwrap(), "hangs": HANGS.load(std::sync::atomic::Ordering::SeqCst), "aborted_after_hangs": too_many_hangs()})
+    );
 }
 
 
@@ -772,10 +916,10 @@ pub fn run_main<S: Server>() {
     let flag = |name: &str| a.iter().position(|x| x == name).and_then(|i| a.get(i + 1)).cloned();
     let workers: usize = flag("--workers").and_then(|s| s.parse().ok()).unwrap_or(6);
     match a.get(1).map(|s| s.as_str()) {
-        Some("replay") => replay::<S>(flag("--variants").as_deref() == Some("all"), workers),
+        Some("replay") => replay::<S>(flag("--variants").as_deref().unwrap_or("one"), workers),
         Some("random") => random::<S>(a[2].parse().unwrap(), a[3].parse().unwrap(), workers),
         _ => {
-            eprintln!("usage: routing replay [--variants one|all] [--workers N] | routing random <apps> <requests> [--workers N]");
+            eprintln!("usage: routing replay [--variants one|all|mixed] [--workers N] | routing random <apps> <requests> [--workers N]");
             std::process::exit(2)
         }
     }
